@@ -90,10 +90,12 @@ func (s *BadSmellListener) EnterClassDeclaration(ctx *ClassDeclarationContext) {
 
 func getTypeData(typ *TypeTypeContext) string {
 	var typeData string
-	classOrInterface := typ.ClassOrInterfaceType().(*ClassOrInterfaceTypeContext)
-	if classOrInterface != nil {
+	if classOrInterface, ok := typ.ClassOrInterfaceType().(*ClassOrInterfaceTypeContext); ok && classOrInterface != nil {
 		identifiers := classOrInterface.AllIdentifier()
 		typeData = identifiers[len(identifiers)-1].GetText()
+	} else if typ.PrimitiveType() != nil {
+		// the grammar also accepts a primitive type here; it is named by its keyword
+		typeData = typ.PrimitiveType().GetText()
 	}
 
 	return typeData
